@@ -171,6 +171,10 @@ class MDict:
     def __repr__(self):
         return f"MDict({z3.simplify(self.t)})"
 
+    def entry(self, k):
+        """value bound to k (ABSENT if none): lets d[k] be a DDEntry view that can be appended to in place"""
+        return dget(vd(self.t), k, ABSENT)
+
 
 class AliasingUnsupported(Exception):
     pass
